@@ -13,6 +13,10 @@ import (
 
 const (
 	keyScanBufSize = 1024
+
+	// maxNestedFeeds is how many times keys can be fed again (macros running macros)
+	// once some keys fed by a macro have been used, until the terminal is read again.
+	maxNestedFeeds = 32
 )
 
 // Stdin is used by the Keys struct to read and write keys.
@@ -28,6 +32,8 @@ type Keys struct {
 	matched   []rune      // Keys that have been successfully matched against a bind.
 	macroKeys []rune      // Keys that have been fed by a macro.
 	mustWait  bool        // Keys are in the stack, but we must still read stdin.
+	fromMacro bool        // Keys fed by a macro have been used since we last read stdin.
+	nested    int         // Number of times keys have been fed since then.
 	waiting   bool        // Currently waiting for keys on stdin.
 	reading   bool        // Currently reading keys out of the main loop.
 	keysOnce  chan []byte // Passing keys from the main routine.
@@ -55,6 +61,8 @@ func WaitAvailableKeys(keys *Keys, cfg *inputrc.Config) {
 
 	keys.mutex.Lock()
 	keys.waiting = true
+	keys.fromMacro = false
+	keys.nested = 0
 	keys.cursor = make(chan []byte)
 	keys.mutex.Unlock()
 
@@ -115,6 +123,7 @@ func PopKey(keys *Keys) (key byte, empty bool) {
 	case len(keys.macroKeys) > 0:
 		key = byte(keys.macroKeys[0])
 		keys.macroKeys = keys.macroKeys[1:]
+		keys.fromMacro = true
 	default:
 		return byte(0), true
 	}
@@ -181,6 +190,7 @@ func PopForce(keys *Keys) (key byte, empty bool) {
 	case len(keys.macroKeys) > 0:
 		key = byte(keys.macroKeys[0])
 		keys.macroKeys = keys.macroKeys[1:]
+		keys.fromMacro = true
 	default:
 		return byte(0), true
 	}
@@ -235,6 +245,7 @@ func (k *Keys) ReadKey() (key rune, isAbort bool) {
 	case len(k.macroKeys) > 0:
 		key = k.macroKeys[0]
 		k.macroKeys = k.macroKeys[1:]
+		k.fromMacro = true
 
 	case k.waiting:
 		buf := <-k.keysOnce
@@ -274,6 +285,7 @@ func (k *Keys) Pop() (key byte, empty bool) {
 	case len(k.macroKeys) > 0:
 		key = byte(k.macroKeys[0])
 		k.macroKeys = k.macroKeys[1:]
+		k.fromMacro = true
 	default:
 		return byte(0), true
 	}
@@ -300,6 +312,17 @@ func (k *Keys) Feed(begin bool, keys ...rune) {
 
 	k.mutex.Lock()
 	defer k.mutex.Unlock()
+
+	// A macro that runs itself (directly or not) would feed keys
+	// forever without ever waiting for the user again: abort it.
+	if k.fromMacro {
+		k.nested++
+	}
+
+	if k.nested > maxNestedFeeds {
+		k.macroKeys = nil
+		return
+	}
 
 	if begin {
 		k.macroKeys = append(keyBuf, k.macroKeys...)
